@@ -2,10 +2,13 @@ package main
 
 import (
 	"context"
+	"crypto/rand"
+	"crypto/rsa"
 	"fmt"
 	"net/http"
 	"net/url"
 	"strings"
+	"sync"
 	"time"
 
 	"github.com/alicebob/miniredis/v2"
@@ -41,6 +44,7 @@ type c18World struct {
 	fac    oidc.SessionStoreFactoryUnit
 	ocs    []*oidcv1.OIDCConfig
 	idps   []*fakeIDP
+	keys   []*rsa.PrivateKey // one signing key per filter: each filter is configured with ITS provider's key set only
 	mrs    map[string]*miniredis.Miniredis
 	cancel context.CancelFunc
 }
@@ -56,8 +60,16 @@ func newC18World(l c18Layout) (*c18World, error) {
 		oc := &oidcv1.OIDCConfig{ClientId: f.ClientID, ClientSecretConfig: &oidcv1.OIDCConfig_ClientSecret{ClientSecret: "secret-" + f.Name},
 			CallbackUri: "https://app.example.com/" + f.Name + "/callback", AuthorizationUri: "https://idp-" + f.Name + ".example.com/auth",
 			TokenUri: idp.srv.URL + "/token", Scopes: []string{"openid"}, CookieNamePrefix: f.Prefix,
-			IdToken: &oidcv1.TokenConfig{Header: "x-id-" + f.Name, Preamble: ""}, JwksConfig: &oidcv1.OIDCConfig_Jwks{Jwks: "x"},
+			IdToken:                &oidcv1.TokenConfig{Header: "x-id-" + f.Name, Preamble: ""},
 			AbsoluteSessionTimeout: f.Abs}
+		key := c18Key(i)
+		w.keys = append(w.keys, key)
+		if i%2 == 0 {
+			oc.JwksConfig = &oidcv1.OIDCConfig_Jwks{Jwks: jwksDoc(&key.PublicKey, keys().kid)}
+		} else {
+			idp.setJWKS(jwksDoc(&key.PublicKey, keys().kid))
+			oc.JwksConfig = &oidcv1.OIDCConfig_JwksFetcher{JwksFetcher: &oidcv1.OIDCConfig_JwksFetcherConfig{JwksUri: idp.srv.URL + "/jwks", PeriodicFetchIntervalSec: 3600}}
+		}
 		if f.Redis != "" {
 			parts := strings.SplitN(f.Redis, "/", 2)
 			mr := w.mrs[parts[0]]
@@ -84,7 +96,10 @@ func newC18World(l c18Layout) (*c18World, error) {
 	if err := w.fac.PreRun(); err != nil {
 		return nil, err
 	}
-	w.filter = server.NewExtAuthZFilter(cfg, internal.NewTLSConfigPool(ctx), staticJWKS{}, w.fac)
+	pool := internal.NewTLSConfigPool(ctx)
+	jw := oidc.NewJWKSProvider(cfg, pool) // the REAL key source: inline JWKS for even filters, fetched JWKS for odd ones
+	go func() { _ = jw.ServeContext(ctx) }()
+	w.filter = server.NewExtAuthZFilter(cfg, pool, jw, w.fac)
 	return w, nil
 }
 
@@ -110,6 +125,23 @@ func (w *c18World) check(app, path, cookie string) *envoy.CheckResponse {
 	return resp
 }
 
+var (
+	c18Keys   []*rsa.PrivateKey
+	c18KeysMu sync.Mutex
+)
+
+// c18Key: the signing key of the i-th provider (generated once per process)
+func c18Key(i int) *rsa.PrivateKey {
+	c18KeysMu.Lock()
+	defer c18KeysMu.Unlock()
+	for len(c18Keys) <= i {
+		k, err := rsa.GenerateKey(rand.Reader, 2048)
+		must(err)
+		c18Keys = append(c18Keys, k)
+	}
+	return c18Keys[i]
+}
+
 func cookieNameFor(prefix string) string {
 	if prefix != "" {
 		return "__Host-" + prefix + "-authservice-session-id-cookie"
@@ -132,8 +164,29 @@ func (w *c18World) loginAt(l c18Layout, i int) (string, error) {
 	if cs[0].Name != cookieNameFor(f.Prefix) || u.Query().Get("client_id") != f.ClientID || !strings.HasPrefix(loc, "https://idp-"+f.Name+".") {
 		return "", fmt.Errorf("OWN-CONFIG: the login redirect of filter %s does not use its own cookie name / client id / provider: cookie %s location %s", f.Name, cs[0].Name, loc)
 	}
+	// first: an ID token that is perfect except that it is signed by ANOTHER filter's provider - it must not log anybody in
+	other := (i + 1) % len(l.Filters)
 	w.idps[i].set(idpAnswer{Kind: "body", TokenType: "Bearer", Access: "access-" + f.Name,
-		ID: mintToken(tokSpec{Mode: "good", Exp: time.Now().Unix() + 600, Aud: f.ClientID, Nonce: u.Query().Get("nonce"), Sub: "user-of-" + f.Name, Extra: f.Name})})
+		ID: mintToken(tokSpec{Mode: "good", Key: w.keys[other], Exp: time.Now().Unix() + 600, Aud: f.ClientID, Nonce: u.Query().Get("nonce"), Sub: "intruder", Extra: f.Name + "-foreign"})})
+	w.idps[i].take()
+	r0 := w.check(f.Name, "/"+f.Name+"/callback?code=c&state="+u.Query().Get("state"), cs[0].Name+"="+cs[0].Value)
+	if int(r0.GetDeniedResponse().GetStatus().GetCode()) == 302 {
+		if loc0, _ := hdrValue(r0.GetDeniedResponse().GetHeaders(), "location"); !strings.HasPrefix(loc0, "https://idp-") {
+			return "", fmt.Errorf("OWN-KEYS: filter %s completed a login with an ID token signed by the provider of filter %s (its own key set does not contain that key)", f.Name, l.Filters[other].Name)
+		}
+	}
+	// the failed attempt consumed or invalidated the login state: start again
+	r1 = w.check(f.Name, "/"+f.Name+"/page", "")
+	d = r1.GetDeniedResponse()
+	loc, _ = hdrValue(d.GetHeaders(), "location")
+	sc, _ = hdrValue(d.GetHeaders(), "set-cookie")
+	u, _ = url.Parse(loc)
+	cs = (&http.Response{Header: http.Header{"Set-Cookie": []string{sc}}}).Cookies()
+	if u == nil || len(cs) != 1 {
+		return "", fmt.Errorf("no login redirect at %s after a rejected callback: %s", f.Name, showResp(r1, nil))
+	}
+	w.idps[i].set(idpAnswer{Kind: "body", TokenType: "Bearer", Access: "access-" + f.Name,
+		ID: mintToken(tokSpec{Mode: "good", Key: w.keys[i], Exp: time.Now().Unix() + 600, Aud: f.ClientID, Nonce: u.Query().Get("nonce"), Sub: "user-of-" + f.Name, Extra: f.Name})})
 	w.idps[i].take()
 	r2 := w.check(f.Name, "/"+f.Name+"/callback?code=c&state="+u.Query().Get("state"), cs[0].Name+"="+cs[0].Value)
 	if int(r2.GetDeniedResponse().GetStatus().GetCode()) != 302 {
